@@ -24,7 +24,7 @@ BASE = 1_000_000_000
 
 _out = os.fdopen(os.dup(1), "w")
 _in = os.fdopen(os.dup(0), "r")
-_real = dict(osopen=os.open, stat=os.stat, exists=os.path.exists, write=os.write, close=os.close, rename=os.rename,
+_real = dict(makedirs=os.makedirs, osopen=os.open, stat=os.stat, exists=os.path.exists, write=os.write, close=os.close, rename=os.rename,
              replace=os.replace, move=shutil.move, mkstemp=tempfile.mkstemp, open=builtins.open, unlink=os.unlink)
 _depth = [0]
 _tmpfds = {}
@@ -89,7 +89,26 @@ def _stat(path, *a, **kw):
 def _exists(path):
     if not _depth[0] and isinstance(path, (str, os.PathLike)) and os.path.abspath(os.fspath(path)) == MODPATH:
         return point("exists", lambda: _real["exists"](path), lambda r: {"r": bool(r)})
+    if not _depth[0] and isinstance(path, (str, os.PathLike)) and os.path.abspath(os.fspath(path)) == MODDIR:
+        return point("direxists", lambda: _real["exists"](path), lambda r: {"r": bool(r)})
     return _real["exists"](path)
+
+
+def _makedirs(path, *a, **kw):
+    if _depth[0] or not isinstance(path, (str, os.PathLike)) or os.path.abspath(os.fspath(path)) != MODDIR:
+        return _real["makedirs"](path, *a, **kw)
+    err = []
+
+    def call():
+        try:
+            return _real["makedirs"](path, *a, **kw)
+        except OSError as ex:       # somebody else made it meanwhile: report, then let mako see the error
+            err.append(ex)
+            return None
+    r = point("mkdir", call, lambda r: {"created": not err})
+    if err:
+        raise err[0]
+    return r
 
 
 def _tmpev(name, via, excl):
@@ -192,6 +211,7 @@ def main():
     cg.time = FT
 
     os.stat = _stat
+    os.makedirs = _makedirs
     os.open = _osopen
     os.path.exists = _exists
     os.write = _write
